@@ -426,6 +426,38 @@ fn cli_fault_menu(ctx: &Ctx, acc: &mut Acc) {
         .reduce(Acc::new, Acc::merge);
     let merged = Acc::merge(std::mem::take(acc), part);
     *acc = merged;
+    // the default PDF path of a multi-file report is ./report.pdf: it must not replace an existing file either
+    {
+        let sc = Scratch::new();
+        sc.write("a.cgt", b"2024-01-15 BUY X 10 @ 10\n");
+        sc.write("b.cgt", b"2024-02-01 SELL X 4 @ 12 FEES 1\n");
+        let sentinel = b"SENTINEL-CONTENT".to_vec();
+        sc.write("report.pdf", &sentinel);
+        let o = run_tool(&["report", "a.cgt", "b.cgt", "--format", "pdf"], &sc, Duration::from_secs(30));
+        acc.states += 1;
+        acc.validated += 1;
+        acc.bump("cli-fault-menu:cells");
+        let cell = json!({"case": "multi-file report --format pdf with an existing ./report.pdf", "args": ["report", "a.cgt", "b.cgt", "--format", "pdf"]});
+        let cx = json!({"exit": o.code, "stderr": o.err().chars().take(300).collect::<String>(), "profile": "cli-fault-menu"});
+        let after = std::fs::read(sc.path("report.pdf")).ok();
+        if after.as_deref() != Some(sentinel.as_slice()) {
+            acc.violation(&ctx.findings, "C15", Violation { clause: "output-touched-on-failure".into(), input: Input::Json(cell.clone()), detail: "the default PDF path ./report.pdf replaced an existing file".into(), context: cx.clone() });
+        }
+        if o.code == Some(0) || !o.stdout.is_empty() {
+            acc.violation(&ctx.findings, "C15", Violation { clause: "failure-not-signalled".into(), input: Input::Json(cell), detail: "the run should fail (default PDF path exists) but exits 0 or prints to stdout".into(), context: cx });
+        }
+        // and without a pre-existing file the same command succeeds and writes ./report.pdf
+        let sc2 = Scratch::new();
+        sc2.write("a.cgt", b"2024-01-15 BUY X 10 @ 10\n");
+        sc2.write("b.cgt", b"2024-02-01 SELL X 4 @ 12 FEES 1\n");
+        let o2 = run_tool(&["report", "a.cgt", "b.cgt", "--format", "pdf"], &sc2, Duration::from_secs(30));
+        acc.states += 1;
+        acc.validated += 1;
+        acc.bump("cli-fault-menu:cells");
+        if o2.code != Some(0) || !std::fs::read(sc2.path("report.pdf")).map(|b| b.starts_with(b"%PDF")).unwrap_or(false) {
+            acc.violation(&ctx.findings, "C15", Violation { clause: "pdf-not-written".into(), input: Input::Json(json!({"case": "multi-file report --format pdf, no existing report.pdf"})), detail: "multi-file PDF report did not produce ./report.pdf".into(), context: json!({"exit": o2.code, "profile": "cli-fault-menu"}) });
+        }
+    }
     // other commands and option values
     let singles: Vec<(&str, Vec<&str>, Option<&[u8]>, bool)> = vec![
         ("report missing file", vec!["report", "nope.cgt"], None, false),
